@@ -31,12 +31,22 @@ class Unsat(Exception):
 junk_scalar = st.one_of(
     st.none(), st.booleans(), st.integers(-3, 3), st.sampled_from(["", "a", "zz", "é"]),
     st.sampled_from([0.5, -1.0, 1e9]), st.just(b"x"),
+    # equal-valued scalars of different types (1 == 1.0 == True, 0 == 0.0 == False): anything that
+    # memoises or deduplicates by value confuses them
+    st.sampled_from([0, 0.0, False, 1, 1.0, True, 2, 2.0, -1, -1.0]),
 )
+# containers holding equal-valued scalars of different types side by side
+twins = st.sampled_from([[1, 1.0], [0.0, 0, 7], [True, 1], [1.0, True], [2.0, 2, "x"], [False, 0.0],
+                         {"count": 0, "enabled": False}, {"a": 1.0, "q": 1}, [-1, -1.0], [[1], [1.0]]])
 junk = st.one_of(
     junk_scalar, junk_scalar,
-    st.lists(junk_scalar, max_size=2),
-    st.dictionaries(st.sampled_from(["a", "q", "zz"]), junk_scalar, max_size=2),
+    st.lists(junk_scalar, max_size=3),
+    st.dictionaries(st.sampled_from(["a", "q", "zz"]), junk_scalar, max_size=3),
+    twins,
 )
+# a member of an unconstrained position (untyped list, `...` padding, undeclared dict): mostly scalars,
+# sometimes a small nested container
+junk_member = st.integers(0, 4).flatmap(lambda i: junk if i == 0 else junk_scalar)
 
 
 def _bounds(lf, floor=0):
@@ -329,7 +339,7 @@ def _gen_list(draw, spec, mut):
         if form == "typed":
             v = [_gen(draw, spec["elem"], mut) for _ in range(n)]
         else:
-            v = [draw(junk_scalar) for _ in range(n)]
+            v = [draw(junk_member) for _ in range(n)]
     else:
         el = spec["elems"]
         k = len(el)
@@ -340,7 +350,7 @@ def _gen_list(draw, spec, mut):
         else:
             lo, hi = _bounds(lf, floor=k)
             n = _pick_len(draw, lo, hi, spread=3)
-            pad = [draw(junk_scalar) for _ in range(n - k)]
+            pad = [draw(junk_member) for _ in range(n - k)]
             body = [_gen(draw, e, mut) for e in el]
             if form == "head":
                 v = body + pad
@@ -401,7 +411,7 @@ _EXTRA_KEYS = ["extra", "zz", 99, "a ", None, ("x",)]
 def _gen_dict(draw, spec, mut):
     near = mut is not None
     if "entries" not in spec:
-        v = draw(st.dictionaries(st.sampled_from(["a", "b", 2, None]), junk_scalar, max_size=3))
+        v = draw(st.dictionaries(st.sampled_from(["a", "b", 2, None]), junk_member, max_size=3))
         if near and mut.take(draw, "dict:near"):
             return draw(st.sampled_from([None, list(v.items()), "{}", Zoo("ordereddict")]))
         return v
